@@ -353,6 +353,26 @@ Proof. apply conj4_chain. Qed.
 Theorem conj_trans4_opamp ts su sd : opamp (conj_trans4 ts) su sd = rcj R (@opamp R ts sd su).
 Proof. apply conj_trans4_chain. Qed.
 
+(* ================================================================== MpDm.from_mps: the diagonal density operator of a state *)
+Theorem from_mps4_chain : forall (ts : list (nat * T3)) su sd l r,
+  chain4 (from_mps4 ts) su sd l r = if eqbl su sd then chain3 ts su l r else zero.
+Proof.
+  induction ts as [|[d t] ts IH]; intros su sd l r.
+  - destruct su as [|pu su], sd as [|pd sd]; cbn [from_mps4 map chain4 chain3 eqbl]; try reflexivity.
+    destruct (Nat.eqb pu pd && eqbl su sd); reflexivity.
+  - cbn [from_mps4 map fst snd]. fold (from_mps4 ts).
+    destruct su as [|pu su], sd as [|pd sd]; cbn [chain4 chain3 eqbl]; try reflexivity.
+    destruct (Nat.eqb_spec pu pd) as [->|Hne]; cbn [andb].
+    + destruct (eqbl su sd) eqn:E.
+      * apply sumn_ext. intros m _. rewrite IH, E. reflexivity.
+      * apply sumn_0. intros m _. rewrite IH, E. ring.
+    + apply sumn_0. intros m _. ring.
+Qed.
+
+Theorem from_mps4_opamp (ts : list (nat * T3)) su sd :
+  opamp (from_mps4 ts) su sd = if eqbl su sd then amp ts su else zero.
+Proof. apply from_mps4_chain. Qed.
+
 (* ================================================================== apply (operator on state) *)
 Lemma divmod_lin lO d la : (la < d)%nat -> ((lO * d + la) / d = lO)%nat /\ ((lO * d + la) mod d = la)%nat.
 Proof.
